@@ -502,7 +502,19 @@ def rule_optional(facts):
                 for f in range(256):
                     if f & 0x3C:
                         continue            # reserved bits set: rejected before
-                    leaf = lambda q, f=f: f if (q[0] in ("ok", "try") and pat.has_call(q, "read_u8")) else (_ for _ in ()).throw(pat.NotEvaluable(q))
+                    def leaf(q, f=f):
+                        inner = q
+                        while isinstance(inner, tuple) and inner and (inner[0] in ("ok", "okp", "try") or
+                                                                      (inner[0] == "call" and str(inner[1]).endswith("map_err"))):
+                            inner = inner[1] if inner[0] != "call" else inner[2][0]
+                        if isinstance(inner, tuple) and inner and inner[0] == "call" and str(inner[1]).endswith("read_u8"):
+                            return f            # the flags byte itself
+                        # `cond.then(|| get_multibyte(input)).transpose()?`: present exactly when cond holds
+                        if isinstance(inner, tuple) and inner and inner[0] == "call" and str(inner[1]).endswith("transpose") and inner[2] and \
+                                isinstance(inner[2][0], tuple) and inner[2][0][0] == "call" and str(inner[2][0][1]).endswith("::then"):
+                            cond = inner[2][0][2][0]
+                            return int(bool(pat.eval_cmp(cond, leaf) if pat.cmp_sides(cond) else pat.eval_term(cond, leaf)))
+                        raise pat.NotEvaluable(q)
                     v = pat.eval_gated(b, pt, op.place.local, bbA, leaf, iA, on_def)
                     if bool(v) != bool(f & bit):
                         bad = "block flags 0x%02x: the %s field is %s, the format says %s" % (f, nm, "read" if v else "not read",
